@@ -778,6 +778,8 @@ class LogicalLinkController(object):
         with self.lock:
             if self.terminated:
                 raise err.Error(errno.ESHUTDOWN)
+            if socket.addr is not None:
+                raise err.Error(errno.EINVAL)  # bound by another thread
             try:
                 addr = 32 + self.sap[32:64].index(None)
             except ValueError:
@@ -793,6 +795,8 @@ class LogicalLinkController(object):
         with self.lock:
             if self.terminated:
                 raise err.Error(errno.ESHUTDOWN)
+            if socket.addr is not None:
+                raise err.Error(errno.EINVAL)  # bound by another thread
             if addr in range(32, 64) or isinstance(socket, tco.RawAccessPoint):
                 if self.sap[addr] is None:
                     socket.bind(addr)
@@ -810,6 +814,8 @@ class LogicalLinkController(object):
         with self.lock:
             if self.terminated:
                 raise err.Error(errno.ESHUTDOWN)
+            if socket.addr is not None:
+                raise err.Error(errno.EINVAL)  # bound by another thread
             if self.snl.get(name) is not None:
                 raise err.Error(errno.EADDRINUSE)
             addr = wks_map.get(name)
